@@ -25,7 +25,7 @@ for out in sorted(glob.glob(os.path.join(src, "C??*.out"))):
         shutil.copy(os.path.join(out, f"demo{k}.py"), os.path.join(d, "demo.py"))
         meta = json.load(open(os.path.join(out, f"meta{k}.json")))
         meta["confirmed"] = line[0].split(" ", 1)[1]
-        meta["round"] = 2 if offset else 1
+        meta["round"] = {0: 1, 4: 2, 8: 3}.get(offset, 1 + offset // 4)
         meta["origin"] = "behaviour-preserving edit written by an independent sub-agent that saw only the property text"
         json.dump(meta, open(os.path.join(d, "meta.json"), "w"), indent=1)
         kept += 1
